@@ -16,7 +16,9 @@ CONC_EVENTS = ("hang,scen.begin,scen.end,run.begin,run.end,h.once.begin,h.once.e
 CONC_MC = [("Conc", "ConcMC.cfg", "hold", ("quick", "thorough")),
            ("Conc", "ConcMC_broken_fail.cfg", "violate", ("quick", "thorough")),
            ("Conc", "ConcMC_broken_ctx.cfg", "violate", ("quick", "thorough")),
-           ("Conc", "ConcMC_broken_reg.cfg", "violate", ("quick", "thorough"))]
+           ("Conc", "ConcMC_broken_reg.cfg", "violate", ("quick", "thorough")),
+           ("Conc", "ConcMC_late.cfg", "hold", ("quick", "thorough")),           # goroutines still registering cleanups while cleanup() pops
+           ("Conc", "ConcMC_late_broken.cfg", "violate", ("quick", "thorough"))]
 
 METHODS = {
     "errorf": lambda: op("errorf", text="g"), "fail": lambda: op("fail"), "failed": lambda: op("failed"), "ctx": lambda: op("ctx", text="g"),
